@@ -121,6 +121,7 @@ pub enum Op {
     Exit,
     MainDone,
     SelectStart,
+    StdoutRaw,
 }
 
 #[derive(Clone, Copy, Debug, PartialEq, Eq)]
@@ -132,9 +133,9 @@ pub struct Ev {
     pub b: u32,
 }
 
-pub const ACTOR_CLIENT_TX: u16 = 100;
-pub const ACTOR_CLIENT_RX: u16 = 101;
-pub const ACTOR_NONE: u16 = 999;
+pub const ACTOR_CLIENT_TX: u16 = u16::MAX - 1;
+pub const ACTOR_CLIENT_RX: u16 = u16::MAX;
+pub const ACTOR_NONE: u16 = u16::MAX - 2;
 
 // ---------------------------------------------------------------------------------------------
 // Run configuration (the per-run knobs the interposers and pipes consult)
@@ -207,7 +208,7 @@ pub struct Counters {
 struct TaskSlot {
     fut: Option<Pin<Box<dyn Future<Output = ()>>>>,
     flag: Arc<WakeFlag>,
-    on_panic: Option<Box<dyn FnOnce()>>,
+    on_panic: Option<Box<dyn FnOnce(Box<dyn std::any::Any + Send>)>>,
     /// tokio's `JoinHandle::abort`: the task is dropped at its next scheduling point and its
     /// handle resolves to a cancelled `JoinError`
     abort: bool,
@@ -265,6 +266,9 @@ struct World {
 thread_local! {
     static WORLD: RefCell<Option<World>> = const { RefCell::new(None) };
     static LAST_PANIC: RefCell<Option<PanicReport>> = const { RefCell::new(None) };
+    /// reports of the panics of this run by payload address: a payload that is raised again
+    /// (`resume_unwind(join_error.into_panic())`) does not pass the panic hook a second time
+    static PANIC_REPORTS: RefCell<Vec<(usize, PanicReport)>> = const { RefCell::new(Vec::new()) };
     static IN_SIM: std::cell::Cell<bool> = const { std::cell::Cell::new(false) };
 }
 
@@ -429,9 +433,16 @@ pub mod rt {
     use super::*;
     use std::rc::Rc;
 
-    #[derive(Debug)]
     pub struct JoinError {
         pub(crate) panicked: bool,
+        /// what the task panicked with (tokio hands it out through `into_panic`)
+        pub(crate) payload: Option<Box<dyn std::any::Any + Send>>,
+    }
+
+    impl std::fmt::Debug for JoinError {
+        fn fmt(&self, f: &mut std::fmt::Formatter<'_>) -> std::fmt::Result {
+            write!(f, "JoinError::{}", if self.panicked { "Panic(...)" } else { "Cancelled" })
+        }
     }
 
     impl JoinError {
@@ -440,6 +451,17 @@ pub mod rt {
         }
         pub fn is_cancelled(&self) -> bool {
             !self.panicked
+        }
+        /// As tokio's: the panic payload; panics itself if the task was cancelled.
+        pub fn into_panic(self) -> Box<dyn std::any::Any + Send> {
+            self.try_into_panic().expect("`JoinError` reason is not a panic.")
+        }
+        pub fn try_into_panic(mut self) -> Result<Box<dyn std::any::Any + Send>, JoinError> {
+            if self.panicked {
+                Ok(self.payload.take().unwrap_or_else(|| Box::new("task panicked")))
+            } else {
+                Err(self)
+            }
         }
     }
 
@@ -548,8 +570,8 @@ pub mod rt {
                 w.wake();
             }
         };
-        let on_panic = move || {
-            *s2.result.borrow_mut() = Some(Err(JoinError { panicked: true }));
+        let on_panic = move |payload: Box<dyn std::any::Any + Send>| {
+            *s2.result.borrow_mut() = Some(Err(JoinError { panicked: true, payload: Some(payload) }));
             s2.finished.set(true);
             if let Some(w) = s2.waker.borrow_mut().take() {
                 w.wake();
@@ -557,7 +579,7 @@ pub mod rt {
         };
         let on_abort = move || {
             if s3.result.borrow().is_none() {
-                *s3.result.borrow_mut() = Some(Err(JoinError { panicked: false }));
+                *s3.result.borrow_mut() = Some(Err(JoinError { panicked: false, payload: None }));
             }
             s3.finished.set(true);
             if let Some(w) = s3.waker.borrow_mut().take() {
@@ -961,6 +983,23 @@ pub mod time {
 // Thread identity: per-(simulated-)thread storage
 // ---------------------------------------------------------------------------------------------
 
+/// Bytes the code writes to the PROCESS's standard output behind tokio's back (`println!`,
+/// `print!`): they go into the same pipe the client reads, at this very instant - between, or in
+/// the middle of, whatever the framed writer has written so far. (A blocking write: it does not
+/// respect the pipe's capacity, the thread would simply wait.) Outside a simulated run the bytes
+/// go to the real standard output.
+pub fn process_stdout_write(bytes: &[u8]) {
+    let done = with_world(|w| {
+        w.stdout_buf.extend(bytes.iter().copied());
+        w.stdout_total += bytes.len() as u64;
+        w.log(Op::StdoutRaw, bytes.len() as u32, 0);
+    });
+    if done.is_none() {
+        use std::io::Write;
+        let _ = std::io::stdout().write_all(bytes);
+    }
+}
+
 /// The branch an unbiased `select!` starts polling at: seeded, part of the event log.
 pub fn select_start(branches: u32) -> u32 {
     if branches == 0 {
@@ -1253,6 +1292,7 @@ impl Sim {
     {
         install_panic_hook();
         worker_local::reset();
+        PANIC_REPORTS.with(|p| p.borrow_mut().clear());
         let seed = cfg.seed;
         WORLD.with(|w| {
             *w.borrow_mut() = Some(World {
@@ -1456,12 +1496,21 @@ impl Sim {
                     self.ended = Some(end.clone());
                     return PollOutcome::ProcessEnded(end);
                 }
-                let report = report.unwrap_or(PanicReport {
-                    message: "<panic without report>".into(),
-                    file: String::new(),
-                    line: 0,
-                    frames: vec![],
-                });
+                let addr = &*payload as *const dyn std::any::Any as *const () as usize;
+                let report = match report {
+                    Some(r) => {
+                        PANIC_REPORTS.with(|p| p.borrow_mut().push((addr, r.clone())));
+                        r
+                    }
+                    None => PANIC_REPORTS
+                        .with(|p| p.borrow().iter().find(|(a, _)| *a == addr).map(|(_, r)| r.clone()))
+                        .unwrap_or(PanicReport {
+                            message: "<panic without report>".into(),
+                            file: String::new(),
+                            line: 0,
+                            frames: vec![],
+                        }),
+                };
                 let on_panic = with_world(|w| {
                     w.tasks[id as usize].done = true;
                     w.log(Op::TaskPanic, id as u32, 0);
@@ -1473,7 +1522,7 @@ impl Sim {
                 let _ = std::panic::catch_unwind(std::panic::AssertUnwindSafe(move || drop(fut)));
                 IN_SIM.with(|c| c.set(false));
                 if let Some(f) = on_panic {
-                    f();
+                    f(payload);
                 }
                 if id == 0 {
                     let end = ProcessEnd::MainPanicked(report.clone());
